@@ -14,6 +14,8 @@ import (
 	"fmt"
 	"hash/crc32"
 	"net/netip"
+	"os"
+	"sort"
 	"sync"
 	"sync/atomic"
 	"testing"
@@ -817,6 +819,7 @@ func TestC08(t *testing.T) {
 		"{0,1,len-1,len+1,0xffff}; DT/DL/ST/SL all 256; extension NextHdr/ExtLen/option type/length all 256; PathType x NextHdr all 65536; " +
 		"extension option layouts: every TLV tiling of a 2- and a 6-byte option area over 4 option types incl. every way to end inside an option (type byte, length byte, overrunning length), as HBH, as E2E and in HBH+E2E on every slow-path seed (traceroute+router alert, expired) and a quarter of the others, auth off and on, 2-byte area also with all 65536 values; " +
 		"generated (not mutated) packets: every validated hop of every rtr.CasesP case re-MACed with its travel ingress and/or egress over {0, unknown, 0xffff, sibling-owned, own} x 4 router-alert flag combinations x {SCION, EPIC} x {UDP, SCMP traceroute request} x ingress kinds, one-hop paths likewise; " +
+		"reply-header size sweep (generated): one representative per slow-path cause (expired hop 8-byte SCMP header, BFD-down external egress 20, BFD-down sibling egress 28, traceroute router alert) x ingress kind x segment count x cross-over x first/last position, path stretched with foreign hop fields to EVERY hop count up to 64 x source host {IPv4, IPv6, service} x destination host kind x router address {IPv4, IPv6} x {SCION, EPIC} x {small, 1300-byte} payload x authentication off/on: every reply-header size from 80 to 916 bytes in steps of 4 on both sides of the 512-byte headroom; " +
 		"path meta word (structured subset of 4x64x7^3x2 words on 4 seeds and all ingress kinds; thorough adds all 2^26 words on each of the 4 seeds); pairs of structural single-byte mutations (bound 2); STUN: every byte x " +
 		"same values, every truncation, first attribute type/length all 65536 values, extra attributes. Structural families on all three ingress kinds " +
 		"(external, sibling, internal), byte sweep on the seed's own ingress; SCMP authentication off/on. Every input is distinct by construction"
@@ -977,6 +980,201 @@ func TestC08(t *testing.T) {
 			}
 			done(w)
 			r.Extra["phase0_valid_mac_odd_interface_x_alert_inputs"] = n0.Load()
+		}
+		// ---- phase 0b: every size of the reply header the slow path has to fit in front of (or behind) the quoted packet ----
+		//
+		// An SCMP error is built in place: the new headers go into the packet buffer's headroom in front of the offender when
+		// they fit and behind it when they do not. How many bytes they need depends on the reply's address header (the
+		// offender's source host + the router's own host address), the path (every hop count the path type allows, 1-3
+		// segments), the SCMP header (8, 20 or 28 bytes) and the 32-byte authenticator extension. Mutation cannot lengthen
+		// a path, so these packets are generated: representatives of every slow-path cause / ingress kind / segment count
+		// are stretched with foreign hop fields to EVERY hop count up to 64 and crossed with the address kinds, the router's
+		// address kind, the path type, a small and a large (truncated quote) payload, SCMP authentication off and on.
+		{
+			var nb atomic.Int64
+			var szMu sync.Mutex
+			sizes := [2]map[int]bool{{}, {}} // reply header bytes for which an SCMP error was produced, by auth
+			epicTS := uint32((100*time.Second)/(21*time.Microsecond)) - 1
+			type sweepJob struct {
+				auth bool
+				ra   int
+			}
+			var sj []sweepJob
+			for _, auth := range []bool{false, true} {
+				for ra := range c09RouterAddrs {
+					sj = append(sj, sweepJob{auth, ra})
+				}
+			}
+			type rep struct {
+				c       rtr.Case
+				scmpHdr int // bytes of the SCMP header the cause is answered with (0: router alert, not an error)
+				alert   bool
+			}
+			mkCfg := func(j sweepJob) rtr.Cfg {
+				cfg := rtr.StdCfg(true, rtr.KeyA)
+				cfg.AuthSCMP = j.auth
+				cfg.InternalAddr = c09RouterAddrs[j.ra].internal
+				for i := range cfg.Ifs { // sessions exist but never come up: egress 4 -> ExternalInterfaceDown, sibling br-1 -> InternalConnectivityDown
+					if cfg.Ifs[i].ID == 4 || cfg.Ifs[i].Owner == 1 {
+						cfg.Ifs[i].BFD = true
+					}
+				}
+				return cfg
+			}
+			var reps []rep
+			{
+				cfg := mkCfg(sj[0])
+				seen := map[string]bool{}
+				pick := func(cs []rtr.Case, what string, hdr int, alert bool, ok func(c *rtr.Case) bool) {
+					for i := range cs {
+						c := &cs[i]
+						if !ok(c) {
+							continue
+						}
+						id := fmt.Sprintf("%s/in%d/segs%d/x%v/first%v/last%v", what, c.In.Kind, len(c.Pkt.Segs), c.Xover, c.V[0].Hop == 0,
+							c.V[len(c.V)-1].Hop == c.Pkt.NumHops()-1)
+						if seen[id] {
+							continue
+						}
+						seen[id] = true
+						cc := *c
+						cc.Name = c.Name + " " + what
+						reps = append(reps, rep{cc, hdr, alert})
+					}
+				}
+				freshC := rtr.CasesP(&cfg, rtr.KeyA, rtr.Params{TS: now - 100, Exp: 63})
+				staleC := rtr.CasesP(&cfg, rtr.KeyA, rtr.Params{TS: now - 100000, Exp: 0})
+				pick(staleC, "expired", 8, false, func(c *rtr.Case) bool { return true })
+				pick(freshC, "egress-bfd-down", 20, false, func(c *rtr.Case) bool { return !c.Deliver && c.EgressIf == 4 })
+				pick(freshC, "sibling-bfd-down", 28, false, func(c *rtr.Case) bool {
+					f := cfg.If(c.EgressIf)
+					return !c.Deliver && f != nil && f.Owner == 1
+				})
+				pick(freshC, "traceroute", 0, true, func(c *rtr.Case) bool { return true })
+			}
+			r.Extra["phase0b_representatives"] = len(reps)
+			type unit struct {
+				j  sweepJob
+				ri int
+			}
+			var units []unit
+			for _, j := range sj {
+				for ri := range reps {
+					units = append(units, unit{j, ri})
+				}
+			}
+			mc.ParallelFor(len(units), func(ui int) {
+				if stop() {
+					return
+				}
+				u := units[ui]
+				rp := &reps[u.ri]
+				w := &c08Worker{k: k, cfg: mkCfg(u.j), oc: map[string]int64{}}
+				w.rebuild()
+				seed := &c08Seed{name: rp.c.Name + "/hdrsweep", in: rp.c.In}
+				base := rp.c.Pkt.NumHops()
+				for total := base; total <= 64; total++ {
+					add := total - base
+					var sc rtr.Case
+					ok := false
+					for _, split := range []int{add / 2, add, 0} {
+						if sc, ok = c09Stretch(rp.c, split, add-split); ok {
+							break
+						}
+					}
+					if !ok {
+						continue
+					}
+					for srcKind := 0; srcKind < 3; srcKind++ {
+						for dstKind := 0; dstKind < 3; dstKind++ {
+							if !mc.Thorough() && dstKind != (total+srcKind)%3 {
+								continue // the destination kind does not enter the reply; quick rotates it
+							}
+							for pt := 0; pt < 2; pt++ {
+								for big := 0; big < 2; big++ {
+									p := sc.Pkt.Clone()
+									local := p.SrcIA == uint64(w.cfg.IA)
+									srcLen := 4
+									switch srcKind {
+									case 1:
+										srcLen = 16
+										p.Src = rtr.V6("2001:db8::1:1")
+										if local {
+											p.Src = rtr.V6("fd00::100")
+										}
+									case 2:
+										p.Src = rtr.SVC(uint16(addr.SvcCS))
+									}
+									switch dstKind {
+									case 1:
+										p.Dst = rtr.V6("2001:db8::2:2")
+										if p.DstIA == uint64(w.cfg.IA) {
+											p.Dst = rtr.V6("fd00::200")
+										}
+									case 2:
+										p.Dst = rtr.SVC(uint16(addr.SvcCS))
+									}
+									switch {
+									case rp.alert:
+										v := sc.V[len(sc.V)-1]
+										hp := p.HopRef(v.Hop)
+										hp.InAlert, hp.EgAlert = true, true
+										body := make([]byte, 20+1200*big)
+										binary.BigEndian.PutUint16(body, 0x1234)
+										p.SetSCMP(130, 0, body)
+									case big == 1:
+										p.SetUDP(40001, 40002, bytes.Repeat([]byte{0x5a}, 1300))
+									default:
+										p.SetUDP(40001, 40002, []byte("verif-payload"))
+									}
+									if pt == 1 {
+										cc := sc
+										cc.Pkt = p
+										p = cc.WithEPIC(rtr.KeyA, epicTS)
+									}
+									raw, _ := p.Serialize()
+									before := w.oc["scmp-error"]
+									w.one(seed, c08Mut("path stretched to %d hops, src/dst kind %d, epic %d, large payload %d", total, srcKind*3+dstKind, pt, big), raw, rp.c.In)
+									nb.Add(1)
+									if w.oc["scmp-error"] > before && rp.scmpHdr > 0 {
+										hdr := 12 + 16 + srcLen + len(c09RouterAddrs[u.j.ra].host) + 4 + 8*len(p.Segs) + 12*total + rp.scmpHdr
+										ai := 0
+										if u.j.auth {
+											hdr += 32
+											ai = 1
+										}
+										szMu.Lock()
+										sizes[ai][hdr] = true
+										szMu.Unlock()
+									}
+								}
+							}
+						}
+					}
+				}
+				w.flush()
+			})
+			r.Extra["phase0b_reply_header_size_sweep_inputs"] = nb.Load()
+			for ai, name := range []string{"auth_off", "auth_on"} {
+				var l []int
+				for h := range sizes[ai] {
+					l = append(l, h)
+				}
+				sort.Ints(l)
+				if len(l) > 0 {
+					r.Extra["phase0b_reply_header_bytes_"+name] = fmt.Sprintf("%d distinct sizes, %d..%d", len(l), l[0], l[len(l)-1])
+				}
+				// self-check: around the 512-byte headroom every possible size (multiples of 4) was answered
+				for h := 400; h <= 640 && r.Violations() == 0 && !r.OutOfBudget(); h += 4 {
+					if !sizes[ai][h] {
+						r.HarnessError("phase 0b (%s): no SCMP error with a reply header of %d bytes was produced", name, h)
+						break
+					}
+				}
+			}
+		}
+		if os.Getenv("C08_DEBUG") == "only-generated-phases" { // development aid: stop after phases 0 and 0b (the run then fails its outcome self-check)
+			return
 		}
 		// ---- phase 1: single mutations on every seed ----
 		mc.ParallelFor(len(seeds), func(si int) {
